@@ -186,6 +186,12 @@ def run(ctx):
             ct = ["FULL", "LINK_ONLY", "NO_COMMIT"][i % 3]
             paths = gen_paths(rng, rng.randint(1, 4))
             ops = [op for op in gen_ops(rng, paths, rng.randint(2, 14)) if op[0] != "reopen"]
+            stored_keys = sorted({op[1] for op in ops if op[0] == "store"})
+            if len(paths) >= 2 and len(stored_keys) >= 2 and i % 2 == 0:
+                # directed: one commit gives the same key to two paths, one of which pointed elsewhere before (an alias next to
+                # a path that moves); then both are resolved
+                pa, pb = ["/" + "/".join(x) for x in paths[:2]]
+                ops += [["sync", [[pa, stored_keys[0]]]], ["sync", [[pa, stored_keys[1]], [pb, stored_keys[1]]]], ["fetch_paths", [pa]], ["fetch_paths", [pb]]]
             d = mkd()
             st = make_dbfs_store(d, ct)
             outs = []
@@ -203,6 +209,15 @@ def run(ctx):
             res.evaluations += 1
             res.count("commit_" + ct)
             res.nontrivial(ct + json.dumps(ops))
+            # oracle: with a redirect record per committed path the store answers like a dictionary
+            if ct in ("FULL", "LINK_ONLY"):
+                from .c08 import dict_model
+                want = dict_model(ops)
+                for j, (o, wnt) in enumerate(zip(outs, want)):
+                    if ops[j][0] in ("sync", "fetch_paths") and o != wnt:
+                        res.violations.append({"what": "commit type %s: operation %d %s answers %s, a dictionary answers %s" % (ct, j, ops[j], o, wnt),
+                                               "input": {"commit": ct, "ops": ops[: j + 1]}, "kf": None})
+                        break
             # oracle on the files
             if ct == "NO_COMMIT" and data:
                 res.violations.append({"what": "commit type none wrote under the data directory: %s" % sorted(data), "input": {"commit": ct, "ops": ops}, "kf": None})
